@@ -64,6 +64,7 @@ type Stats struct {
 	Steps int64
 	Inconclusive int64
 	ConcreteAsserts int64
+	StubViolations int64
 }
 
 func (s *Stats) add(o *Stats) {
@@ -86,6 +87,7 @@ func (s *Stats) add(o *Stats) {
 	s.Steps += o.Steps
 	s.Inconclusive += o.Inconclusive
 	s.ConcreteAsserts += o.ConcreteAsserts
+	s.StubViolations += o.StubViolations
 }
 
 // PathResult is what one finished path reports.
